@@ -93,7 +93,7 @@ def _mentions(v, tag):
     return tag in repr(v)
 
 
-def analyse(fx, key, params, decision_names, consume, rec, result_wrappers=()):
+def analyse(fx, key, params, decision_names, consume, rec, result_wrappers=(), tracked="CONT"):
     """Run the function symbolically; return per path the list of duplication events."""
     f = fx.fn(key)
 
@@ -113,12 +113,25 @@ def analyse(fx, key, params, decision_names, consume, rec, result_wrappers=()):
             p.events.append(("iter", repr(src.sym) if isinstance(src, Iter) else repr(src), caps, t["sp"]["line"]))
             return Iter(None, sym=Sym("mapped"))
         if c.split("::")[0] in fx.crates and n in consume:
-            p.events.append(("use", n, [copy.deepcopy(I.deref(a)) for a in args], t["sp"]["line"]))
+            # a consuming call inside a loop over a collection of unknown length runs once per element
+            stack = []
+            for m in p.loop_marks:
+                if m[0] == "loop-enter":
+                    stack.append(m[1])
+                elif stack:
+                    stack.pop()
+            p.events.append(("use", n, [copy.deepcopy(I.deref(a)) for a in args], t["sp"]["line"], stack[-1] if stack else None))
             return Sym("res:%s" % n)
         if c.split("::")[0] in fx.crates:
+            # a helper of the same crate that receives the tracked value (and is neither a consumer nor the decision function) is
+            # followed into: it may hand the value back, or decide about sharing itself
+            k2 = t.get("resolved_key") or (t.get("callee_key") if not t.get("callee_trait") else None)
+            if k2 in fx.fns and fx.fns[k2]["crate"] == f["crate"] and getattr(fr, "depth", 0) < 2 and \
+                    any(_mentions(I.deref(a), "$" + tracked) for a in args):
+                return NotImplemented
             return Sym("res:%s" % n)
         return NotImplemented
-    I = interp.Interp(fx, hooks=[hook], max_depth=0, max_paths=4096)
+    I = interp.Interp(fx, hooks=[hook], max_depth=2, max_paths=4096)
     return I.run(f, params)
 
 
@@ -184,7 +197,7 @@ def rule_share(ctx):
                 params.append(Sym("STMT%d" % i, adt=FSSTMT))
             else:
                 params.append(Sym("p%d" % i))
-        outs = analyse(fx, key, params, {"lift"}, {"subst_sim"}, rec, result_wrappers=("shrink",))
+        outs = analyse(fx, key, params, {"lift"}, {"subst_sim"}, rec, result_wrappers=("shrink",), tracked="STMT")
         n_sites += _judge(fx, rec, res, key, f, outs, "STMT", "lift")
     if n_fns < 20:
         raise AnalysisError("R-SHARE: only %d functions analysed" % n_fns)
@@ -206,6 +219,12 @@ def _judge(fx, rec, res, key, f, outs, tag, decider):
                 for a in ev[2]:
                     if _mentions(a, "$" + tag):
                         uses.setdefault(_root_of(a, tag), []).append((a, ev[3]))
+                        if len(ev) > 4 and ev[4] is not None:
+                            # used inside a loop: once per element of the collection
+                            dup_site = True
+                            ok = (isinstance(a, Adt) and a.path == "DECIDED") or bounded(fx, rec, _unwrap(a)) or _count_leq_one(o.conds, ev[4])
+                            if not ok:
+                                bad.setdefault(("iter", ev[3]), []).append((a, o.conds))
             elif ev[0] == "iter":
                 for cap in ev[2]:
                     if _mentions(cap, "$" + tag):
